@@ -177,7 +177,7 @@ func runC20(c *Ctx) {
 		f := p.Fn(u.fn)
 		serve := callsIn(f, "rt/middleware.serveUI")
 		exec := callsIn(f, "(*html/template.Template).Execute", "(*text/template.Template).Execute")
-		c.obF("R20.1", f, "renders-and-serves", len(serve) == 1 && len(exec) == 1, "the UI constructor renders its page once and installs serveUI", fmt.Sprintf("%d serveUI, %d Execute", len(serve), len(exec)))
+		c.obRF("R20.1", f, "renders-and-serves", len(serve) == 1 && len(exec) == 1, "the UI constructor renders its page once and installs serveUI", fmt.Sprintf("%d serveUI, %d Execute", len(serve), len(exec)))
 		if len(serve) != 1 || len(exec) != 1 {
 			continue
 		}
@@ -270,7 +270,7 @@ func runC20(c *Ctx) {
 	uf := p.Fn("(rt/middleware.Context).uiOptionsForHandler")
 	splits := callsIn(uf, "path.Split")
 	parses := callsIn(uf, "net/url.Parse")
-	c.obF("R20.3", uf, "derives-spec-route", len(splits) == 1 && len(parses) == 1, "the spec route is derived by path.Split from the parsed SpecURL", fmt.Sprintf("%d Split, %d Parse", len(splits), len(parses)))
+	c.obRF("R20.3", uf, "derives-spec-route", len(splits) == 1 && len(parses) == 1, "the spec route is derived by path.Split from the parsed SpecURL", fmt.Sprintf("%d Split, %d Parse", len(splits), len(parses)))
 	if len(splits) == 1 && len(parses) == 1 {
 		sp := splits[0].(*ssa.Call)
 		pr := parses[0].(*ssa.Call)
@@ -296,7 +296,11 @@ func runC20(c *Ctx) {
 		}
 		c.obI("R20.3", sp, "spec-path-from-SpecURL", ok, "for every SpecURL that parses (absolute URL, absolute or relative path) the spec route is the URL's path", why)
 		// results
+		c.obRF("R20.3", uf, "returns-path-options-specoptions", uf.Signature.Results().Len() == 3, "uiOptionsForHandler returns (spec base path, UI options, spec options)", fmt.Sprintf("%d results", uf.Signature.Results().Len()))
 		for _, r := range returnsOf(uf) {
+			if len(r.Results) != 3 {
+				continue
+			}
 			okP, _ := allOrigins(r.Results[0], oCall(0, "path.Split"), oConstString(""))
 			c.obI("R20.3", r, "returns-split-dir", okP, "the spec base path returned is the directory part of the SpecURL path", "")
 			// uiOpts returned are the ones carrying SpecURL
@@ -318,7 +322,7 @@ func runC20(c *Ctx) {
 	} {
 		f := p.Fn(fl.fn)
 		specs := callsIn(f, "rt/middleware.Spec")
-		c.obF("R20.3", f, "installs-Spec", len(specs) == 1, "the API handler installs the Spec middleware", "")
+		c.obRF("R20.3", f, "installs-Spec", len(specs) == 1, "the API handler installs the Spec middleware", "")
 		if len(specs) != 1 {
 			continue
 		}
@@ -340,7 +344,7 @@ func runC20(c *Ctx) {
 				c.obI("R20.3", ci, "ui-options-from-common", okC, "the UI is configured from the same common options (same SpecURL) the spec route was derived from", "")
 			}
 		}
-		c.obF("R20.3", f, "converts-options", conv == 1, "the common UI options are converted for the UI flavour", fmt.Sprintf("%d conversions", conv))
+		c.obRF("R20.3", f, "converts-options", conv == 1, "the common UI options are converted for the UI flavour", fmt.Sprintf("%d conversions", conv))
 	}
 
 	// the SpecURL the page references is the configured one, verbatim: it is only ever set from an option argument,
@@ -385,7 +389,7 @@ func runC20(c *Ctx) {
 			c.obI("R20.3", st, field+"-verbatim", okV, "the "+field+" the UI references / the spec is served under is the configured value, verbatim (never rewritten: the spec route and the page are derived from the very same string)", why)
 		}
 	}
-	c.obF("R20.3", p.Fn("(*rt/middleware.uiOptions).EnsureDefaults"), "SpecURL-writers", nSU >= 2, "writers of SpecURL found (option setter and default)", fmt.Sprintf("%d", nSU))
+	c.obRF("R20.3", p.Fn("(*rt/middleware.uiOptions).EnsureDefaults"), "SpecURL-writers", nSU >= 2, "writers of SpecURL found (option setter and default)", fmt.Sprintf("%d", nSU))
 
 	// R20.4 template fields exist
 	mw := p.TypesPkg("rt/middleware")
